@@ -2,14 +2,18 @@
 from ..core import hx
 from . import _plan
 ID = "C14"
-PROPS = ["F1Verif.Props.C14", "F1Verif.Props.C15"]
+PROPS = ["F1Verif.Props.C14", "F1Verif.Props.C15", "F1Verif.Props.C14Cli"]
 ALSO = ["F1Verif.Legacy.Parse"]
 RULE = ("engine A: grammar-directed rate strings (valid, near-miss: missing parts, stray signs, dots, spaces, empty unit, "
         "zero/negative intervals, overflowing numbers, non-ASCII units) and random strings through rate.ParseRate; the same "
         "for staged.ParseStages; the four rate calculators with every distribution kind, zero/negative frequencies, "
         "negative targets and weights (returned rate function probed 25 times + ticker creation); structured config files "
         "(every subset of fields present/omitted in stage and default, all modes, non-positive numbers) rendered to YAML for "
-        "the real ParseConfigFile and handed decoded to the model; atoi/parsedur ops tie the two standard-library ports. "
+        "the real ParseConfigFile and handed decoded to the model; atoi/parsedur ops tie the two standard-library ports; "
+        "flag level: generated command lines (all six modes, every common flag present/absent, malformed durations, "
+        "concurrency < 1, unknown scenario, unknown flags) run through the real F1.ExecuteWithArgs and compared with "
+        "Cli.plan (accept/reject) + monitors (setup never runs for a refused line; accepted => ran, <= concurrency in "
+        "flight, <= max-iterations, exit status = documented verdict, load within what the rate spells). "
         "Spec on the implementation's output: never crashes; accepted => positive interval, >= 1 worker, usable rate; "
         "accepted rate strings mean what they spell. Non-trivial: an input that is rejected, or accepted with a "
         "non-default shape (unit/duration given, distribution != none, stage inheriting a field); distinct = distinct inputs.")
@@ -17,7 +21,7 @@ ASSUMPTIONS = ["gopkg.in/yaml.v3 decoding and pflag parsing are outside the mode
                "harness and decoded by the real code; the model starts from the decoded structure)",
                "strconv.Atoi and time.ParseDuration are ported and the ports are checked against the real functions on every run",
                "strconv.ParseFloat is not ported: generated weights are simple decimals or plainly malformed",
-               "flag-level cases (cobra) are exercised by the run.cli op in the thorough tier"]
+               "flag level: the cli op runs real command lines through F1.ExecuteWithArgs; pflag/cobra syntax itself is the library's (a line they refuse is described to the model as ill-formed)"]
 
 
 def corpus():
@@ -41,7 +45,7 @@ def corpus():
         "plan 0 scenario=73,maxdur=10000000000,conc=2,maxit=0,igndrop=1 mode=%s dur=5,conc=0" % hx("users"),
         "plan 0 scenario=73,maxdur=10000000000,conc=2,maxit=0,igndrop=1 mode=%s,conc=0 dur=5" % hx("users"),   # default concurrency 0 inherited
         "plan 0 scenario=73,maxdur=10000000000,conc=2,maxit=0,igndrop=1 mode=%s,conc=-3 dur=5" % hx("users"),
-    ]
+    ] + _plan.cli_corpus()
 
 
 def generate(rng, tier):
@@ -58,12 +62,25 @@ def generate(rng, tier):
         out.append(_plan.calc_case(rng))
     while len(out) < n:
         out.append(_plan.plan_case(rng, valid_bias=0.55))
+    # flag level: real command lines through F1.ExecuteWithArgs (wall-clock: each accepted line runs for its --max-duration)
+    for _ in range({"quick": 110, "thorough": 900, "search": 200}[tier]):
+        out.append(_plan.cli_case(rng, rng.choice([None, None, None, "reject"])))
     return out
+
+
+def compare(rec):
+    if rec["case"].startswith("cli "):
+        return _plan.cli_compare(rec)
+    if rec["model"] == "-":
+        return None
+    if rec["impl"] != rec["model"]:
+        return "model=%s impl=%s" % (rec["model"], rec["impl"])
+    return None
 
 
 def nontrivial_key(rec):
     c = rec["case"]
-    if rec["impl"] == "err":
+    if rec["impl"] == "err" or c.startswith("cli "):
         return c
     if c.startswith("parserate") and "2f" in c.split()[1]:
         return c
@@ -76,12 +93,17 @@ def distribution(recs):
     d = {}
     for r in recs:
         op = r["case"].split()[0]
+        if op == "cli":
+            mode = [t for t in r["case"].split() if t.startswith("mode=")][0][5:]
+            k = "cli:%s:%s" % (mode, r["impl"].split()[0] if r["impl"] else "none")
+            d[k] = d.get(k, 0) + 1
+            continue
         k = op + (":err" if r["impl"] == "err" else ":ok" if r["impl"].startswith("ok") else ":" + r["impl"][:12])
         d[k] = d.get(k, 0) + 1
     return d
 
 
 MANIFEST = {
- "text": "Rate strings: ParseRate never crashes (C14_rate_total), an accepted rate has a non-negative count and a positive interval (C14_rate_runnable), and means what it spells — N/<duration>, N/<unit> = one of it, bare N = per second (C14_meaning_duration/_unit/_bare); ParseStages never crashes (C14_stages_total); every calculator that accepts its input returns a positive tick interval (newDistribution_pos, calc*_pos); an accepted config file has >= 1 worker and every kept stage is runnable (C14_plan_runnable via stageLoop_spec, parseStage_runnable). Pre-repair models with kernel-checked crashing inputs in Legacy/Parse. Tie: grammar-directed and random strings, calculator inputs and structured configs through the real functions; returned rate functions probed.",
+ "text": "Rate strings: ParseRate never crashes (C14_rate_total), an accepted rate has a non-negative count and a positive interval (C14_rate_runnable), and means what it spells — N/<duration>, N/<unit> = one of it, bare N = per second (C14_meaning_duration/_unit/_bare); ParseStages never crashes (C14_stages_total); every calculator that accepts its input returns a positive tick interval (newDistribution_pos, calc*_pos); an accepted config file has >= 1 worker and every kept stage is runnable (C14_plan_runnable via stageLoop_spec, parseStage_runnable). Pre-repair models with kernel-checked crashing inputs in Legacy/Parse. Flag level: Cli.plan models run.Cmd/runCmdExecute and the five builders with their registered defaults — C14_cli_total (never crashes), C14_cli_runnable (accepted => >= 1 worker, positive tick interval unless users mode, known scenario), C14_cli_options (options are the flags one to one), C14_cli_conc_refused. Tie: grammar-directed and random strings, calculator inputs, structured configs and generated command lines (F1.ExecuteWithArgs) through the real functions; returned rate functions probed.",
  "note": "YAML decoding, pflag/cobra, strconv.ParseFloat are external (not modelled); strconv.Atoi and time.ParseDuration are ported and checked against the real functions by correspondence (their behaviour is an assumption of the theorems). Arbitrary-bytes inputs only monitor 'no crash' (fuzzing in support).",
  "technique": "Lean 4 theorems (total functions with explicit error outcomes, case analysis) + differential check on grammar-directed inputs"}
